@@ -1,4 +1,5 @@
 import WowVerif.Model.C16Blp
+import WowVerif.Model.C16Header
 import WowVerif.Model.Dispatch18b
 namespace Wv.Drv
 open Wv Wv.Blp
@@ -14,6 +15,7 @@ def c16 (toks : List String) : Option String :=
       let lay := layout ((← hdr.toNat?) + 4 * (← cmap.toNat?)) (levels.map (levelBytes f ab))
       let body : String := ",".intercalate (lay.map fun p => s!"{p.1}:{p.2}")
       pure (s!"{lay.length} " ++ body)
+  | ["c16hdr", h] => do pure (BlpH.show_ (BlpH.parse (← bytesOfHex h)))
   | ["c16alpha", bits, d] => do
       let as ← rleDecode d
       pure (rleEncode ((packAlpha (← bits.toNat?) as).map UInt8.ofNat))
